@@ -1,7 +1,6 @@
 CONSTANT N = 3
 INIT Init
 NEXT Next
-INVARIANT ActSeqComplete
 INVARIANT DesignTheorem
 INVARIANT ConseqImpl
 INVARIANT ConseqAll
